@@ -58,11 +58,27 @@ def intermediates(build_dir):
     return out
 
 
+H = '<svg xmlns="http://www.w3.org/2000/svg" viewBox="0 0 100 100">'
+# directed sets that run first: reused shapes whose paint (several attributes) moves onto <use> elements
+CORPUS = [
+    ("picosvg", [
+        H + '<path d="M10,10 L40,10 L40,30 L10,30 Z" fill="red" opacity="0.5"/><path d="M50,50 L80,50 L80,70 L50,70 Z" fill="blue"/>'
+        '<path d="M10,60 L40,60 L40,80 L10,80 Z" fill="#00ff00" opacity="0.25"/></svg>',
+        H + '<defs><linearGradient id="g" gradientUnits="userSpaceOnUse" x1="20" y1="20" x2="50" y2="40"><stop offset="0" stop-color="red"/>'
+        '<stop offset="1" stop-color="blue"/></linearGradient></defs><path d="M20,20 L50,20 L50,40 L20,40 Z" fill="url(#g)" opacity="0.8"/>'
+        '<path d="M55,55 L85,55 L85,75 L55,75 Z" fill="wheat" opacity="0.5"/></svg>',
+    ]),
+]
+
+
 def run_determinism(report, n_sets, rng, formats):
+    plans = [(fmt, [(build.filename_for((0x1F600 + k,)), t, (0x1F600 + k,)) for k, t in enumerate(texts)]) for fmt, texts in CORPUS]
     for i in range(n_sets):
         fmt = formats[i % len(formats)]
         # OT-SVG: many unrelated sources so that several documents / reuse groups exist
         docs, srcs = e2e.gen_sources(rng, n=6, share=False) if "svg" in fmt else e2e.gen_sources(rng, n=rng.randint(2, 5))
+        plans.append((fmt, srcs))
+    for i, (fmt, srcs) in enumerate(plans):
         with scratch_dir("verif-c08-") as d:
             paths = write_sources(d, srcs)
             opts = ["--color_format", fmt, "--upem", str(rng.choice([1000, 1024])), "--family", "Det Test"]
